@@ -42,6 +42,10 @@ fn target_of(s: &Stmt) -> Option<String> {
 }
 
 pub async fn run(cx: &mut Ctx) {
+    if cx.case.param("copy_scenario", 0) == 1 {
+        copy_scenario(cx).await;
+        return;
+    }
     let mut knobs = cx.case.knobs();
     // Never a small block cache: moka evicts during housekeeping that is driven by the real
     // clock, which makes hit/miss (and the number of hash maps created) differ between replays.
@@ -642,4 +646,92 @@ pub async fn run(cx: &mut Ctx) {
     cx.stats.sim_ns = now_ns(t0) as u64;
     cx.stats.probes.insert("injections".into(), injections);
     cx.stats.probes.insert("injections-fired".into(), fired_total);
+}
+
+
+/// `COPY t FROM 'file'`: the file is parsed by a helper thread that feeds the operator through
+/// a channel. Whatever ends that thread in the middle of the file - a field that does not parse
+/// (an error) or one whose parsing panics (`2000000000 years` overflows the month count) - must
+/// fail the statement and leave the table as it was; a well-formed file loads completely.
+async fn copy_scenario(cx: &mut Ctx) {
+    let t0 = tokio::time::Instant::now();
+    let mut rng = Rng::new(cx.case.seed ^ 0xC0B1);
+    let knobs = cx.case.knobs();
+    let disk = rng.chance(1, 2);
+    let db = if disk {
+        match Db::open(knobs.options(&cx.root)).await {
+            Ok(d) => d,
+            Err(e) => {
+                cx.harness_error = Some(format!("open failed: {e}"));
+                return;
+            }
+        }
+    } else {
+        Db::memory()
+    };
+    let lines = 200 + rng.usize(3400);
+    let csv = format!("{}/copy.csv", cx.base);
+    for (round, kind) in ["none", "panic", "error"].iter().enumerate() {
+        let table = format!("ct{round}");
+        let o = db.exec(&format!("CREATE TABLE {table} (a INT, v INTERVAL)")).await;
+        if !o.is_ok() {
+            cx.harness_error = Some(format!("create table: {}", o.brief()));
+            return;
+        }
+        // the poison sits anywhere: first line, last line, inside or at the edge of a chunk
+        let bad = match rng.usize(5) {
+            0 => 0,
+            1 => lines - 1,
+            2 => 1024.min(lines - 1),
+            3 => 1023.min(lines - 1),
+            _ => rng.usize(lines),
+        };
+        let mut text = String::new();
+        for i in 0..lines {
+            let field = match (*kind, i == bad) {
+                ("panic", true) => "2000000000 years".to_string(),
+                ("error", true) => "three days".to_string(),
+                _ => format!("{} days", i % 28),
+            };
+            text.push_str(&format!("{i},{field}\n"));
+        }
+        if let Err(e) = std::fs::write(&csv, text) {
+            cx.harness_error = Some(format!("write {csv}: {e}"));
+            return;
+        }
+        let sql = format!("COPY {table} FROM '{csv}' (FORMAT CSV)");
+        let out = db.exec(&sql).await;
+        // (the scratch directory carries the process id: not in anything that is logged)
+        let sql = format!("COPY {table} FROM 'copy.csv' (FORMAT CSV)");
+        quiesce().await;
+        cx.stats.evaluations += 1;
+        cx.stats.statements += 1;
+        *cx.stats.faults.entry(format!("copy-from:reader-{kind}")).or_default() += 1;
+        let count = db.exec(&format!("SELECT count(*) FROM {table}")).await.count();
+        cx.log.push(format!("{sql} [{kind} at line {bad} of {lines}] => {} ; count {count:?}", out.brief()));
+        let want = if *kind == "none" { lines as i64 } else { 0 };
+        let ok_expected = *kind == "none";
+        if out.is_ok() != ok_expected || count != Some(want) {
+            cx.violate(
+                Violation::new(
+                    "C15",
+                    if out.is_ok() { "success-with-different-rows" } else { "failed-dml-changed-table" },
+                    None,
+                    format!(
+                        "{sql} with {lines} lines, reader {kind} at line {bad}: returned {}, the table then holds {count:?} rows (expected {} and {want} rows)",
+                        out.brief(),
+                        if ok_expected { "Ok" } else { "an error" }
+                    ),
+                )
+                .with_sig(&format!("copy-from-{kind}")),
+            );
+            break;
+        }
+    }
+    let _ = db.shutdown().await;
+    drop(db);
+    quiesce().await;
+    cx.case.params.insert("skip_selfcheck".into(), 1);
+    cx.stats.nontrivial = true;
+    cx.stats.sim_ns = now_ns(t0) as u64;
 }
